@@ -439,10 +439,11 @@ func main() {
 		"the byte-level transaction parser (NewTx) is not part of the C05 model (property C09): the model starts from the parsed transactions",
 		"PostCheckBlock is entered with bl.Txs == nil (all callers that handle untrusted data do so); with pre-parsed Txs the weight limit is skipped",
 		"the independent reference in go/cmd/c05/ref.go states Bitcoin Core's header/block rules",
+		"the retry entry paths mirror the client's hand reset of a Block object after a corrupt copy (client/network/data.go, cblk.go) in the harness; netBlockReceived itself is not driven",
 		"BlockIndex is keyed by the first 8 bytes of a BLOCK HASH: two different blocks whose hashes share those 8 bytes (about 2^64 hash evaluations on top of the proof of work to hit a given known block) cannot both be stored — the second one is refused (index-collision), which the model mirrors and a synthetic index state exercises; such a pair is not constructed from real blocks here. The header's previous-block FIELD, by contrast, is free data: it is compared as a whole (fix 533896f3), modelled, proved (precheck_sound) and generated (parent-prefix-only)",
 	}
-	r.Finish("corpus of compact-target / height / locktime / merkle edge values named in the property's quantifier, then generators: compact encodings (all sizes 0..255 x mantissa edges, negative, zero, overflowing), big ints of every byte length incl. negative, hashes at target-1/target/target+1, in-memory block trees of 1..4100 nodes for mainnet/testnet3/testnet4 with timespans below T/4, inside, above 4T and min-difficulty runs, MTP windows of 1..15 nodes with ties, BIP34 heights across every byte-length boundary, merkle leaf lists of 1..40 with duplicated pairs/tails (CVE-2012-2459), IsFinal boundary grids, and whole blocks mined at 0x207fffff on synthetic chain states with one rule violated per case (see histogram block-mutation/*), and blocks of hundreds of 0.3..7 KB transactions (150..250 parallel hashing packs) built to weight 4,000,004 / 4,000,000 / 4,000,001 / ... and checked repeatedly on fresh objects at GOMAXPROCS 16 (histogram weight-many-run/*). distinct = distinct (operation,input) pairs; every generated case reaches the function under test",
-		"each case is run through the real gocoin functions, the Lean model (oracle_c05) and an independent reference written from Bitcoin Core's rules; the property predicate (a block accepted by Chain.CheckBlock violates no rule of the reference; refused blocks leave LastBlock/BlockIndex untouched; compact round trip; required bits = Core's; median; BIP34 push = CScript<<height; mutated flag = Core's; an over-weight many-transaction block is refused on every one of the repeated runs and Block.BlockWeight equals the reference weight on every run) is evaluated on the real code, model/impl equality is the tie for the Lean theorems in Props/C05.lean")
+	r.Finish("corpus of compact-target / height / locktime / merkle edge values named in the property's quantifier, then generators: compact encodings (all sizes 0..255 x mantissa edges, negative, zero, overflowing), big ints of every byte length incl. negative, hashes at target-1/target/target+1, in-memory block trees of 1..4100 nodes for mainnet/testnet3/testnet4 with timespans below T/4, inside, above 4T and min-difficulty runs, MTP windows of 1..15 nodes with ties, BIP34 heights across every byte-length boundary, merkle leaf lists of 1..40 with duplicated pairs/tails (CVE-2012-2459), IsFinal boundary grids, and whole blocks mined at 0x207fffff on synthetic chain states with one rule violated per case (see histogram block-mutation/*), and blocks of hundreds of 0.3..7 KB transactions (150..250 parallel hashing packs) built to weight 4,000,004 / 4,000,000 / 4,000,001 / ... and checked repeatedly on fresh objects at GOMAXPROCS 16 (histogram weight-many-run/*), blocks with a chosen NUMBER of transactions (2, 252, 253, 254, hundreds to thousands: 1- and 3-byte count prefix) built to weight 4,000,000 / 4,000,004 / 4,000,008 / 4,000,001 (histogram weight-count/*), and EVERY whole block again on the same bytes through the header-first / retry ways of building the Block object (histogram block-entry-path/*, entry-path-result/*). distinct = distinct (operation,input) pairs; every generated case reaches the function under test",
+		"each case is run through the real gocoin functions, the Lean model (oracle_c05) and an independent reference written from Bitcoin Core's rules; the property predicate (a block accepted by Chain.CheckBlock violates no rule of the reference; refused blocks leave LastBlock/BlockIndex untouched; compact round trip; required bits = Core's; median; BIP34 push = CScript<<height; mutated flag = Core's; an over-weight many-transaction block is refused on every one of the repeated runs and Block.BlockWeight equals the reference weight on every run; the verdict, Block.BlockWeight and the fields CheckBlock assigns are the same when the object is made from the header and the body attached by `bl.Raw = …` / UpdateContent, also after a refused corrupt copy and the client's reset) is evaluated on the real code, model/impl equality is the tie for the Lean theorems in Props/C05.lean")
 }
 
 // streamConsensus: the consensus parameters a real chain.NewChainExt installs for the three networks, against
